@@ -60,6 +60,28 @@ Theorem C03_typed_sound : forall be vf e c v c',
 Proof. exact unmarshal_t_sound_spec. Qed.
 Print Assumptions C03_typed_sound.
 
+(* both value decoders characterised exactly (soundness + completeness): Ok (v, c') precisely when the bytes at the
+   offset are the encoding of the well-typed encodable value v, its descriptor indices are in range, and c' is the
+   context advanced by the length of that encoding; for the typed decoder in addition v has the shape of the Rust type *)
+Theorem C03_param_exact : forall be vf t buf off nf depth v c',
+  wf t = true -> tys_ok t = true -> bytes_ok buf -> off <= len buf -> fuel_ok vf depth ->
+  (unmarshal_p vf be t {| ubuf := buf; uoff := off; unfds := nf; udepth := depth |} = Ok (v, c') <->
+   wt v t = true /\ encodable be off depth v = true /\ fds_below nf v = true
+   /\ slice buf off (len (spec_enc be off v)) = spec_enc be off v /\ off + len (spec_enc be off v) <= len buf
+   /\ c' = {| ubuf := buf; uoff := off + len (spec_enc be off v); unfds := nf; udepth := depth |}).
+Proof. exact param_exact. Qed.
+Print Assumptions C03_param_exact.
+
+Theorem C03_typed_exact : forall be vf e buf off nf depth v c',
+  wf (erase e) = true -> tys_ok (erase e) = true -> depth + edepth e <= MAX_DEPTH ->
+  bytes_ok buf -> off <= len buf -> fuel_ok vf depth ->
+  (unmarshal_t vf be e {| ubuf := buf; uoff := off; unfds := nf; udepth := depth |} = Ok (v, c') <->
+   wt v (erase e) = true /\ ety_matches e v = true /\ encodable be off depth v = true /\ fds_below nf v = true
+   /\ slice buf off (len (spec_enc be off v)) = spec_enc be off v /\ off + len (spec_enc be off v) <= len buf
+   /\ c' = {| ubuf := buf; uoff := off + len (spec_enc be off v); unfds := nf; udepth := depth |}).
+Proof. exact typed_exact. Qed.
+Print Assumptions C03_typed_exact.
+
 (* agreement 1: validation accepts exactly what the dynamic decoder accepts when enough descriptors are attached,
    and reports the length the decoder consumes *)
 Theorem C03_agree_validate_param : forall be vf depth off buf t n,
